@@ -456,16 +456,17 @@ def all_shapes(glyph):
 
 def placement(vb, ascender, descender, advance, user=ID, otsvg=False):
     """C01/C02: uniform scale so the viewBox height spans descender..ascender, centred in the
-    advance, y up with the top at the ascender (font space) or y down with the top at
-    -ascender (OT-SVG), then the user transform."""
+    advance, y up with the top at the ascender, then the user transform (font coordinates);
+    for OT-SVG the result is expressed in OT-SVG coordinates (y down)."""
     x, y, w, h = vb
     s = (ascender - descender) / h
     dx = (advance - s * w) / 2
+    # font space (y up); the user transform is given in font coordinates
+    m = mul(user, (s, 0, 0, -s, dx - s * x, ascender + s * y))
     if otsvg:
-        m = (s, 0, 0, s, dx - s * x, -ascender - s * y)
-    else:
-        m = (s, 0, 0, -s, dx - s * x, ascender + s * y)
-    return mul(user, m)
+        # the same placement in OT-SVG coordinates: y negated
+        m = mul((1, 0, 0, -1, 0, 0), m)
+    return m
 
 
 def advance_rule(vb, config_width, ascender, descender):
